@@ -3,6 +3,7 @@ import Poly.Model.EthRules
 import Poly.Model.EthHeaderRlp
 import Poly.Model.PoW
 import Poly.Model.EthDeposit
+import Poly.Model.PoWBtc
 /- Driver for the Ethereum light-client families. `drv_eth <family>` reads op lines on stdin.
    ethrules (C28): header rules; pow (C27): PoW fork choice; evm (C23): deposit proof decision. -/
 open Poly
@@ -259,9 +260,104 @@ def step (st : PowDrv.St) (toks : List String) : PowDrv.St × String :=
 
 end EvmDrv
 
+namespace BtcDrv
+open Poly.Model.PoWBtc
+
+/-- rules payload: compact target bits and the header hash as a number (`blockchain.HashToBig`) -/
+abbrev Pay := Nat × Nat
+abbrev BHdr := Poly.Model.PoWBtc.Hdr String Pay
+
+/-- `blockchain.CompactToBig`. -/
+def compactToBig (bits : Nat) : Int :=
+  let mantissa := bits % 8388608            -- bits & 0x007fffff
+  let negative := (bits / 8388608) % 2 = 1  -- bits & 0x00800000
+  let exponent := bits / 16777216           -- bits >> 24
+  let v : Nat := if exponent ≤ 3 then mantissa / 2 ^ (8 * (3 - exponent)) else mantissa * 2 ^ (8 * (exponent - 3))
+  if negative then -(v : Int) else (v : Int)
+
+/-- `blockchain.CalcWork`: `2^256 / (target + 1)`, zero for a non-positive target. -/
+def calcWork (bits : Nat) : Nat :=
+  let t := compactToBig bits
+  if t ≤ 0 then 0 else 2 ^ 256 / (t.toNat + 1)
+
+def regtestPowLimit : Int := 2 ^ 255 - 1
+
+/-- `CheckHeader` on regtest: only the proof of work is checked (`bad` = skipped silently). -/
+def checkRegtest (h : BHdr) (_p : Stored String Pay) : Check :=
+  let t := compactToBig h.rules.1
+  if t ≤ 0 then .bad else if t > regtestPowLimit then .bad else if (h.rules.2 : Int) > t then .bad else .ok
+
+structure St where
+  store : Option (Store String Pay) := none
+  genesis : String := ""
+  seen : List String := []
+  lo : Nat := 0
+  hi : Nat := 0
+
+/-- `HashToBig`: the 32 hash bytes in reverse order as a big-endian number. -/
+def hashNum (hex : String) : Nat := (Proto.bytesOf hex).foldr (fun b acc => acc * 256 + b.toNat) 0
+
+/-- hash prev bits (the remaining header fields are not read by the model) -/
+def hdrOf : List String → Option BHdr
+  | [hash, prev, bits, _nonce, _time, _merkle] =>
+    let b := EthRulesDrv.nat bits
+    some ⟨hash, prev, calcWork b, (b, hashNum hash)⟩
+  | _ => none
+
+def chunks6 : List String → List (List String)
+  | a :: b :: c :: d :: e :: f :: rest => [a, b, c, d, e, f] :: chunks6 rest
+  | [] => []
+  | l => [l]
+
+def showStored (e : Stored String Pay) : String :=
+  s!"{PowDrv.short e.hdr.hash}:{e.total}:{e.height}:{PowDrv.short e.hdr.prev}"
+
+def dump (st : St) : String :=
+  match st.store with
+  | none => "nostate"
+  | some s =>
+    let hs := PowDrv.sortStr (st.seen.eraseDups.filterMap fun k => (s.headers k).map showStored)
+    let heights := (List.range (st.hi + 4 - (st.lo - 2))).map (· + (st.lo - 2))
+    let idx := heights.filterMap fun n => (s.index n).map fun h => s!"{n}:{PowDrv.short h}"
+    let best := match s.best with | some b => showStored b | none => "none"
+    s!"best={best} genesis={PowDrv.short st.genesis} index=[{",".intercalate idx}] headers=[{",".intercalate hs}]"
+
+def failLabel (s : Store String Pay) : List BHdr → String
+  | [] => "ok"
+  | h :: rest =>
+    let (s', o) := syncHeader checkRegtest s h
+    match o with
+    | .noBest => "reject:nobest"
+    | .orphan => "reject:orphan"
+    | .checkError => "reject:check"
+    | .ancestorError => "reject:ancestor"
+    | _ => failLabel s' rest
+
+def step (st : St) (toks : List String) : St × String :=
+  match toks with
+  | "bgenesis" :: height :: rest =>
+    match hdrOf rest with
+    | some g =>
+      let n := EthRulesDrv.nat height
+      let st' : St := { store := some (init g n), genesis := g.hash, seen := [g.hash], lo := n, hi := n }
+      (st', dump st')
+    | none => (st, "bad-op")
+  | "bsync" :: rest =>
+    match st.store, (chunks6 rest).mapM hdrOf with
+    | some s, some hs =>
+      let (s', outs) := syncCall checkRegtest s hs
+      let label := if outs.any Outcome.failed then failLabel s hs else "ok"
+      let st' : St := { st with store := some s', seen := st.seen ++ hs.map (·.hash) ++ hs.map (·.prev), hi := st.hi + hs.length }
+      (st', label ++ " " ++ dump st')
+    | _, _ => (st, "bad-op")
+  | _ => (st, "bad-op")
+
+end BtcDrv
+
 def main (args : List String) : IO Unit :=
   match args with
   | ["ethrules"] => Proto.run () EthRulesDrv.step
   | ["pow"] => Proto.run ({} : PowDrv.St) PowDrv.step
   | ["evm"] => Proto.run ({} : PowDrv.St) EvmDrv.step
+  | ["powbtc"] => Proto.run ({} : BtcDrv.St) BtcDrv.step
   | _ => IO.eprintln "usage: drv_eth <family>"
